@@ -173,11 +173,13 @@ def composition_case(rnd, wd, lits):
 
 # ----------------------------------------------------------------------------- (b) moment test
 
-def moment_config(rnd, tier):
+def moment_config(rnd, tier, force=None):
     import hmclab
     D, M = hmclab.Distributions, hmclab.MassMatrices
     d = 2
     tk = rnd.choice(["gaussian", "gaussian_full", "laplace", "mixture", "truncated"])
+    if force and "target" in force:
+        tk = force["target"]
     mu = numpy.array([[0.5], [-1.0]])
     if tk == "gaussian":
         var = numpy.array([[1.5], [0.5]])
@@ -230,13 +232,21 @@ def moment_config(rnd, tier):
                    stepsize=rnd.choice([0.15, 0.3, 0.5]), steps=rnd.randint(2, 6))
     else:
         cfg.update(stepmode=rnd.choice(["scalar", "vector"]), stepsize=rnd.choice([0.5, 1.0]))
+    if force:
+        if force.get("kind") and force["kind"] != cfg["kind"]:
+            cfg = {"target": tk, "kind": force["kind"]}
+            if force["kind"] == "hmc":
+                cfg.update(mass="diagonal", integrator="lf", randomize=False, stepsize=0.5, steps=4)
+            else:
+                cfg.update(stepmode="vector", stepsize=1.0)
+        cfg.update({k: v for k, v in force.items() if k not in ("target", "kind")})
     return cfg, target, draw, mean, second, fourth
 
 
-def moment_test(rnd, tier, k):
+def moment_test(rnd, tier, k, force=None):
     import hmclab
     S, M = hmclab.Samplers, hmclab.MassMatrices
-    cfg, target, draw, mean, second, fourth = moment_config(rnd, tier)
+    cfg, target, draw, mean, second, fourth = moment_config(rnd, tier, force)
     d = 2
     n = 1500 if tier == "quick" else 6000
     transitions = 3
@@ -297,10 +307,33 @@ def run(tier, seed):
         shutil.rmtree(wd, ignore_errors=True)
     res, errors = sr.eval_runs("C04", coq, ["sc_check_cols", "sc_check_accept", "sc_check_trace"])
     bad = sorted({j for fl in res.values() for j in fl})
+    # when the composition tie breaks: search for a failing input of the statement itself -- chains started on the
+    # target, in the configurations whose tie broke (bounded and unbounded targets), must stay on it
+    searched, found = set(), {}
+    for j in bad:
+        m = metas[j]
+        key = (m["kind"], "unit" if str(m.get("mass_kind", "unit")).startswith("unit") else "diagonal", m.get("integrator", "-"))
+        if key in searched or len(searched) >= 4:
+            continue
+        searched.add(key)
+        for tk in ("truncated", "gaussian"):
+            force = {"target": tk, "kind": m["kind"]}
+            if m["kind"] == "hmc":
+                force.update(mass=key[1], integrator=key[2], stepsize=0.5, steps=5)
+            cfgm, badm = moment_test(rnd, tier, 900 + len(searched), force)
+            dist["moment_tests"] += 1
+            if badm:
+                found[key] = cfgm
+                violations.append(Violation(f"moments-{cfgm['target']}-{cfgm['kind']}", f"chains started from exact draws of the {cfgm['target']} target leave it after 3 transitions: first / second moments "
+                                            f"are {cfgm['z_first']:.1f} / {cfgm['z_second']:.1f} standard errors off ({cfgm})", {"moment_cfg": cfgm}))
+                break
     for j in bad:
         which = [ck for ck, fl in res.items() if j in fl]
+        m = metas[j]
+        key = (m["kind"], "unit" if str(m.get("mass_kind", "unit")).startswith("unit") else "diagonal", m.get("integrator", "-"))
         violations.append(Violation("correspondence", f"the real transition ({metas[j]['kind']}, {metas[j].get('mass_kind', '-')} mass, {metas[j].get('integrator', '-')}) is not the composition "
-                                    "refresh ; trajectory ; Metropolis of the model (" + ",".join(which) + ")", {"cfg": metas[j], "no_failing_input_found": True}))
+                                    "refresh ; trajectory ; Metropolis of the model (" + ",".join(which) + ")",
+                                    {"cfg": metas[j], "no_failing_input_found": key not in found, "failing_input": found.get(key)}))
     for k, log in errors:
         violations.append(Violation("coq-error", "correspondence shard failed: " + log[-300:], {"log": log, "no_failing_input_found": True}))
     for k in range(6 if tier == "quick" else 60):
